@@ -1,6 +1,7 @@
 package decoder
 
 import (
+	"bytes"
 	"sync"
 
 	"github.com/koykov/byteconv"
@@ -49,7 +50,7 @@ func (db *db) set(id int, key string, tree *Tree) {
 	if key != "-1" {
 		db.idxKey[key] = idx
 	}
-	if _, ok := db.idxHash[tree.hsum]; !ok {
+	if _, ok := db.idxHash[tree.hsum]; !ok && tree.src != nil {
 		db.idxHash[tree.hsum] = idx
 	}
 	db.mux.Unlock()
@@ -107,11 +108,13 @@ func (db *db) getKey1(key, key1 string) (dec *Decoder) {
 }
 
 // Get parsed tree by hash sum.
-func (db *db) getTreeByHash(hsum uint64) *Tree {
+func (db *db) getTreeByHash(hsum uint64, src []byte) *Tree {
 	db.mux.RLock()
 	defer db.mux.RUnlock()
 	if idx, ok := db.idxHash[hsum]; ok && idx >= 0 && idx < len(db.buf) {
-		return db.buf[idx].tree
+		if tree := db.buf[idx].tree; tree.src != nil && tree.hsum == hsum && bytes.Equal(tree.src, src) {
+			return tree
+		}
 	}
 	return nil
 }
